@@ -24,7 +24,7 @@ import (
 
 var profC20 = Profile{
 	MaxProcs: 5, MaxItems: 3, Bufsizes: []int{0, 1, 2}, MaxSlots: 5,
-	Params: true, MultiOut: true, FanIn: true, FanOut: true, TwoSources: true, Zip: true, ParamSrc: true, Joins: true,
+	Params: true, MultiOut: true, FanIn: true, FanOut: true, TwoSources: true, Zip: true, ParamSrc: true, Joins: true, EmptyOuts: true,
 }
 
 func exportTree(root *simrt.Inode, dir string, only func(path string) bool) error {
